@@ -50,12 +50,18 @@ def strings_in_blocks(body, blocks):
 def writer_table(run, body, adt=TTL):
     """{variant: (literals, units)} for a `match self { V => ... }` writer."""
     out = {}
+    inside = set()
     for bb, si in body.switches():
         if si["kind"] == "variant" and si.get("adt") == adt:
             for (t, lab, m) in si["edges"]:
                 if isinstance(m, str):
-                    out[m] = strings_in_blocks(body, region(body, (bb, t, lab)))
+                    reg = region(body, (bb, t, lab))
+                    inside |= reg
+                    out[m] = strings_in_blocks(body, reg)
             break
+    # text every variant shares (`format!("ttl={}", self.spelling())`): literals outside the per-variant regions
+    out_common = strings_in_blocks(body, set(body.live_blocks()) - inside)[0] if out else []
+    writer_table.common = out_common
     return out
 
 
@@ -139,6 +145,7 @@ def r1(run):
     run.touch(tq)
     for wname, wb, prefix in (("serialize", ser, ""), ("to_query", tq, "ttl=")):
         wt = writer_table(run, wb)
+        common = list(writer_table.common)
         run.ob("TTL::%s|variants" % wname, set(wt) == set(reader), wb.sp, "%s writes all variants the reader knows: %s" % (wname, sorted(wt)), reason="ttl-codec")
         for v, (lits, units) in sorted(wt.items()):
             r = reader.get(v)
@@ -146,6 +153,9 @@ def r1(run):
                 continue
             kw = [l for l in lits if l.startswith(prefix)] if prefix else lits
             word = kw[0][len(prefix):] if kw else None
+            if prefix and not kw and common == [prefix] and lits:
+                # the key is written once around the per-variant spelling
+                kw, word = lits, lits[0]
             accepted = [lit for (k, lit) in r["keywords"]]
             run.ob("TTL::%s|%s|keyword" % (wname, v), word is not None and word in accepted, wb.sp,
                    "%s writes %r for TTL::%s and parse_ttl accepts %s for that variant" % (wname, (prefix + word) if word else lits, v, r["keywords"]), reason="ttl-keyword-mismatch")
